@@ -25,9 +25,14 @@ import time
 from concurrent.futures import ThreadPoolExecutor
 
 VERIF = os.path.dirname(os.path.dirname(os.path.abspath(__file__)))
-REPO = "/repo"
+# The checks decide /repo. For validating the machinery against seeded changes
+# without disturbing /repo (other work may be building there), VERIF_REPO may
+# name a scratch copy / worktree of the repository: the harness crate is then
+# copied with its path dependencies rewritten and built in its own target dir.
+REPO = os.environ.get("VERIF_REPO", "/repo").rstrip("/") or "/repo"
 BUILD = os.path.join(VERIF, "build")
-CARGO_TARGET = os.path.join(BUILD, "cargo")
+ALT = None if REPO == "/repo" else "alt-" + hashlib.sha1(REPO.encode()).hexdigest()[:8]
+CARGO_TARGET = os.path.join(BUILD, "cargo") if ALT is None else os.path.join(BUILD, ALT, "cargo")
 REPLAYS = os.path.join(VERIF, "replays")
 EVIDENCE = os.path.join(VERIF, "evidence")
 JOBS = 16
@@ -311,20 +316,51 @@ def is_primitive(name):
 
 # ------------------------------------------------------------------ Rust / OCaml
 
+def harness_dir(name="harness"):
+    """/verif/<name>, or — when VERIF_REPO points elsewhere — a copy of it whose
+    path dependencies point to that repository."""
+    src = os.path.join(VERIF, name)
+    if ALT is None:
+        return src
+    dst = os.path.join(BUILD, ALT, name)
+    os.makedirs(dst, exist_ok=True)
+    for root, dirs, files in os.walk(src):
+        dirs[:] = [d for d in dirs if d not in ("target",)]
+        rel = os.path.relpath(root, src)
+        os.makedirs(os.path.join(dst, rel), exist_ok=True)
+        for f in files:
+            if f == "Cargo.lock":
+                continue
+            text = open(os.path.join(root, f), "rb").read()
+            if f == "Cargo.toml":
+                text = text.replace(b'"/repo/', ('"%s/' % REPO).encode())
+            d = os.path.join(dst, rel, f)
+            try:
+                if open(d, "rb").read() == text:
+                    continue
+            except OSError:
+                pass
+            open(d, "wb").write(text)
+    return dst
+
+
 def build_harness(bin_name, release=False, timeout=1800, features=None, extra_env=None):
     """cargo build of one harness binary against /repo's working tree (path deps)."""
-    h = os.path.join(VERIF, "harness")
+    h = harness_dir()
     lock = os.path.join(h, "Cargo.lock")
+    def repo_lock():
+        p = os.path.join(REPO, "Cargo.lock")
+        return p if os.path.exists(p) else "/repo/Cargo.lock"
     if not os.path.exists(lock):
-        shutil.copy(os.path.join(REPO, "Cargo.lock"), lock)
+        shutil.copy(repo_lock(), lock)
     env = dict(ENV)
     if extra_env:
         env.update(extra_env)
-    with Lock("cargo"):
+    with Lock("cargo" if ALT is None else "cargo-" + ALT):
         cmd = "cargo build --offline --bin %s%s" % (bin_name, " --release" if release else "")
         rc, out = sh(cmd, cwd=h, timeout=timeout, env=env)
         if rc != 0 and "Cargo.lock" in out and "lock file" in out:
-            shutil.copy(os.path.join(REPO, "Cargo.lock"), lock)
+            shutil.copy(repo_lock(), lock)
             rc, out = sh(cmd, cwd=h, timeout=timeout, env=env)
     path = os.path.join(env["CARGO_TARGET_DIR"], "release" if release else "debug", bin_name)
     return dict(ok=(rc == 0), log=out, path=path)
